@@ -83,7 +83,11 @@ pub fn run(args: &Args) {
             _ => ("@".to_string(), fixed_doc.as_bytes().to_vec()),
         };
         // input variants
-        let input: Vec<u8> = match rng.below(14) {
+        let input: Vec<u8> = match rng.below(18) {
+            14 => [&doc_text[..], &b" x"[..]].concat(),
+            15 => [&doc_text[..], &b"]"[..]].concat(),
+            16 => [&doc_text[..], &b"\n"[..], &doc_text[..]].concat(),
+            17 => [&doc_text[..], &b","[..]].concat(),
             0 => b"{\"a\": ".to_vec(),
             1 => vec![],
             2 => vec![0xff, 0xfe, b'1'],
